@@ -1,4 +1,5 @@
 import UtlsVerif.HsLockLemmas
+import UtlsVerif.WrCloseLemmas
 import UtlsVerif.Gen.LockShapes
 /-!
 # C26 — concurrent use of a UConn is deadlock-free and consistent (logic core; *partial*)
@@ -30,6 +31,15 @@ the inductive invariant `HsLock.Inv`.  `disc_handshakeContext` then discharges t
   and can never close the connection, in any continuation.
 * `no_deadlock` — every caller that has not returned can step, or its interrupter can, or it waits
   for a mutex whose holder can step, or whose holder waits for `in` whose holder can step.
+
+Second part (`WrClose`): the `activeCall` interlock of `(*UConn).Write` and `Close`, again for every
+pair of skeletons satisfying decidable discipline predicates (`WDisc`: the transport write happens
+inside the +2/−2 window and under `c.out`, the decrement runs — deferred in the writing function —
+after `c.out` is released on every path; `CDisc`: closed bit first, `c.out` only after the in-flight
+test, transport closed before return), one writer calling `Write` any number of times, any number of
+closers, any interleaving: `write_in_flight_visible`, `close_skips_out_when_write_in_flight`,
+`close_never_blocks`, `close_closes_transport`, `blocked_write_released`; the predicates are
+discharged by `decide` on the regenerated `Gen.LockShapes.uconnWrite` / `connClose`.
 
 Not proved here (runtime residue, DESIGN §10): Go memory-model data races (exercised under `-race`
 by the `c26_race` family) and scheduler fairness / termination.
@@ -300,5 +310,165 @@ example : disc unjoined = false := by decide
 example : ((run unjoined (init fun _ => true)
       (List.replicate 19 (.step 0 .ok) ++ [.cancel 0, .intrClose 0])).any fun c =>
     (c.th 0).mode == .done && (c.th 0).ret == none && c.complete && c.closed && c.closers == [0]) = true := by decide
+
+
+/-! ## The activeCall interlock of `Write` and `Close` -/
+
+section wrclose
+open WrClose
+
+/-- the skeletons the code has now satisfy the interlock disciplines (re-checked every run) -/
+theorem disc_write_close : WDisc Gen.LockShapes.uconnWrite ∧ CDisc Gen.LockShapes.connClose := by
+  constructor <;> decide
+
+/-- **write_in_flight_visible**: whenever the writer holds `c.out` (in particular while it is
+blocked in the transport), `activeCall` shows one write in flight. -/
+theorem write_in_flight_visible {wp : List WStmt} {cp : List CStmt} {c : WrClose.Config}
+    (hw : WDisc wp) (hc : CDisc cp) (hr : WrClose.Reach wp cp c) (ho : c.outOwner = some .writer) :
+    c.ac / 2 = 1 := by
+  have hW := (WrClose.inv_reach hw hc hr).2.1
+  unfold WInv at hW
+  cases hm : c.w.mode <;> rw [hm] at hW <;> simp only at hW
+  · obtain ⟨a, _, m⟩ := hW
+    have := m.hr (m.held.1 ho)
+    have := m.reg
+    simp_all
+  · exact hW.2.1 ho
+  · exact absurd ho hW.2
+
+/-- **close_skips_out_when_write_in_flight**: a `Close` that set the closed bit and observed a
+non-zero `activeCall` (writes in flight) never holds `c.out`; and a `Close` that observed zero
+runs while no write is, or ever will be, in flight. -/
+theorem close_skips_out_when_write_in_flight {wp : List WStmt} {cp : List CStmt} {c : WrClose.Config}
+    (hw : WDisc wp) (hc : CDisc cp) (hr : WrClose.Reach wp cp c) {k : Nat} (hwon : (c.cl k).won = true) :
+    ((c.cl k).x ≠ 0 → c.outOwner ≠ some (.closer k)) ∧ ((c.cl k).x = 0 → c.ac / 2 = 0 ∧ c.outOwner ≠ some .writer) := by
+  have hi := WrClose.inv_reach hw hc hr
+  refine ⟨fun hx ho => ?_, fun hx => ?_⟩
+  · have hn := (hi.1.own k).1 ho
+    have hC := hi.2.2 k
+    unfold CInv at hC; rw [hn] at hC
+    exact hx hC.2.1
+  · have h0 := hi.1.idle k hwon hx
+    refine ⟨h0, fun ho => ?_⟩
+    have hW := hi.2.1
+    unfold WInv at hW
+    cases hm : c.w.mode <;> rw [hm] at hW <;> simp only at hW
+    · obtain ⟨a, _, m⟩ := hW
+      have := m.hr (m.held.1 ho)
+      have := m.reg
+      simp_all
+    · have := hW.2.1 ho; omega
+    · exact hW.2 ho
+
+/-- **close_never_blocks**: every `Close` call that has not returned can take its next step —
+whatever the writer is doing, in particular while a `Write` is blocked in the transport. -/
+theorem close_never_blocks {wp : List WStmt} {cp : List CStmt} {c : WrClose.Config}
+    (hw : WDisc wp) (hc : CDisc cp) (hr : WrClose.Reach wp cp c) {k : Nat} (hnd : (c.cl k).mode ≠ .done) :
+    canStepC cp c k = true :=
+  closer_can_step (WrClose.inv_reach hw hc hr) hnd
+
+/-- **close_closes_transport**: the `Close` call that set the closed bit has closed the transport
+when it returns. -/
+theorem close_closes_transport {wp : List WStmt} {cp : List CStmt} {c : WrClose.Config}
+    (hw : WDisc wp) (hc : CDisc cp) (hr : WrClose.Reach wp cp c) {k : Nat}
+    (hd : (c.cl k).mode = .done) (hwon : (c.cl k).won = true) : c.transportClosed = true := by
+  have hC := (WrClose.inv_reach hw hc hr).2.2 k
+  unfold CInv at hC; rw [hd] at hC
+  exact hC hwon
+
+/-- **blocked_write_released**: the writer can always step, except while it waits for `c.out`
+held by a closer (which can step, by `close_never_blocks`) or sits in a transport write on an open
+transport — and that write is enabled as soon as the transport is closed. -/
+theorem blocked_write_released {wp : List WStmt} {cp : List CStmt} {c : WrClose.Config}
+    (hw : WDisc wp) (hc : CDisc cp) (hr : WrClose.Reach wp cp c) (hnd : c.w.mode ≠ .done) :
+    canStepW wp c = true ∨
+    (c.w.mode = .run ∧ wp[c.w.pc]? = some .write ∧ c.transportClosed = false ∧ c.ac / 2 = 1) ∨
+    (c.w.mode = .run ∧ wp[c.w.pc]? = some .lockOut ∧ ∃ k, c.outOwner = some (.closer k) ∧ canStepC cp c k = true) := by
+  have hi := WrClose.inv_reach hw hc hr
+  have hW := hi.2.1
+  unfold WInv at hW
+  unfold canStepW
+  simp only [stepW]
+  cases hm : c.w.mode with
+  | done => exact absurd hm hnd
+  | unwind =>
+    rw [hm] at hW; simp only at hW
+    left
+    cases hd : c.w.defers with
+    | nil => simp
+    | cons d ds =>
+      cases d with
+      | dec => simp
+      | unlockOut =>
+        have hu := hW.2.2
+        rw [hd] at hu
+        simp only [unwindOkW, Bool.and_eq_true, decide_eq_true_eq] at hu
+        simp [hu.1]
+  | run =>
+    rw [hm] at hW; simp only at hW
+    obtain ⟨a, hck, m⟩ := hW
+    cases hdrop : wp.drop c.w.pc with
+    | nil => rw [hdrop] at hck; simp [checkW] at hck
+    | cons s rest =>
+      rw [hdrop] at hck
+      obtain ⟨hget, _⟩ := drop_cons' _ _ _ _ hdrop
+      simp only [checkW, Bool.and_eq_true] at hck
+      have hok := hck.1
+      simp only [hget]
+      cases s with
+      | reg => left; by_cases hb : c.ac % 2 = 1 <;> simp [hb]
+      | dec => left; simp
+      | deferDec => left; simp
+      | handshake => left; simp
+      | deferUnlockOut => left; simp
+      | condRet => left; simp
+      | ret => left; simp
+      | unlockOut => left; simp [m.held.2 (by simpa [wOk] using hok)]
+      | write =>
+        simp only [wOk, Bool.and_eq_true] at hok
+        cases htc : c.transportClosed with
+        | true => left; simp
+        | false =>
+          right; left
+          refine ⟨by trivial, by trivial, by trivial, ?_⟩
+          have := m.reg; simpa [hok.1] using this
+      | lockOut =>
+        simp only [wOk, Bool.and_eq_true, Bool.not_eq_true'] at hok
+        cases ho : c.outOwner with
+        | none => left; simp
+        | some o =>
+          cases o with
+          | writer => have := m.held.1 ho; rw [hok.2] at this; cases this
+          | closer k =>
+            right; right
+            refine ⟨by trivial, by trivial, k, by trivial, closer_can_step hi ?_⟩
+            rw [(hi.1.own k).1 ho]; simp
+
+/-- non-vacuity: the writer is blocked in the transport (peer not reading), a `Close` arrives,
+sees the write in flight, closes the transport without touching `c.out`, returns; the `Write` is
+released and returns. -/
+example : ((WrClose.run Gen.LockShapes.uconnWrite Gen.LockShapes.connClose WrClose.init
+      (List.replicate 9 (.w false false) ++ [.c 0, .c 0] ++ List.replicate 7 (.w false false))).any fun c =>
+    c.w.mode == .done && (c.cl 0).mode == .done && (c.cl 0).won && (c.cl 0).x == 2 && c.transportClosed &&
+    c.outOwner == none && c.ac == 1) = true := by decide
+
+/-- the writer really is stuck before the `Close`: it cannot step while the peer does not read -/
+example : ((WrClose.run Gen.LockShapes.uconnWrite Gen.LockShapes.connClose WrClose.init
+      (List.replicate 9 (.w false false))).any fun c =>
+    !canStepW Gen.LockShapes.uconnWrite c && c.outOwner == some .writer && c.ac == 2) = true := by decide
+
+/-- the seeded shape (registration loop moved into a helper that keeps the `defer`): the window
+is closed before the write — rejected by `WDisc`, and in the model `Close` then queues behind the
+blocked `Write`: neither can ever step again. -/
+private def helperWrite : List WStmt :=
+  [.reg, .dec, .condRet, .handshake, .condRet, .lockOut, .deferUnlockOut, .condRet, .write, .ret]
+
+example : wdisc helperWrite = false := by decide
+example : ((WrClose.run helperWrite Gen.LockShapes.connClose WrClose.init
+      (List.replicate 8 (.w false false) ++ [.c 0, .c 0])).any fun c =>
+    !canStepW helperWrite c && !canStepC Gen.LockShapes.connClose c 0 && (c.cl 0).mode != .done &&
+    c.w.mode != .done && !c.transportClosed) = true := by decide
+
+end wrclose
 
 end C26
